@@ -12,12 +12,15 @@
 // Fault sweep: a must-refuse request that was properly refused is repeated with each storage call of the request
 // failing in turn (every fault kind); "always refused" does not depend on the health of the storage, so a look-up /
 // secret check / key fetch whose error is swallowed and followed by a permissive path shows as a success under fault.
+//
+// Identity clause and overlap part (overlap.go): whatever a request makes the storage do on behalf of a client must be
+// on behalf of the one client the request names and authenticates; pairs of requests of two different clients are
+// overlapped on one route of one router (the first parked at each of its yield points in turn while the second is
+// served completely) and both answers are judged exactly like sequential ones.
 package main
 
 import (
 	"fmt"
-	"os"
-	"runtime/pprof"
 	"strings"
 	"syscall"
 	"time"
@@ -457,8 +460,8 @@ func runCase(run *ev.Run, i int, pl pool) {
 func main() {
 	run := ev.Start("C05", "exploration")
 	sched.Install() // the library's spans, the storage calls and the client getters become yield points (overlap part)
-	run.SetRule(fmt.Sprintf("case index i enumerates the core product endpoint/grant(%d) x credential presentation(%d) x registered auth method(%d) x grant-list shape(%d) = %d cells cyclically; provider flags (AuthMethodPost, AuthMethodPrivateKeyJWT, GrantTypeRefreshToken), storage capability subset, application type, dual credential material, id/secret alphabets, token kinds, and the placement of grant_type (body / URL query only / both equal / two different grants in query and body), of the client credentials and of the grant parameters (body / query / both / secret differing) are drawn per case; when grant_type names two grants the grant obligations are judged by the grant actually served (storage journal); every 2xx device authorization is checked to be stored for the acting client; the presentations include credentials of BOTH kinds in one request (registered secret via Basic / form next to a worthless assertion, wrong or right secret next to a valid assertion) for clients whose record holds a secret and a key; every must-refuse request that a healthy storage saw properly refused is sent again once per (storage call j of that request, fault kind) with exactly that call failing (fault sweep: plain error, wrapped context.DeadlineExceeded, oidc server_error) and must be refused each time; one request in six additionally meets a fault at a random call; each case runs on both routers after minting valid grant material through the real flows; distinct = distinct vectors (router, cell, presentation, auth method, target grant registered/disabled, app type, dual, post/pkjwt flags, id flavour, secret flavour) whose request was answered and judged",
-		numOps, numPres, numAuth, numGrantKinds, coreCells))
+	run.SetRule(fmt.Sprintf("case index i enumerates the core product endpoint/grant(%d) x credential presentation(%d) x registered auth method(%d) x grant-list shape(%d) = %d cells cyclically; provider flags (AuthMethodPost, AuthMethodPrivateKeyJWT, GrantTypeRefreshToken), storage capability subset, application type, dual credential material, id/secret alphabets, token kinds, and the placement of grant_type (body / URL query only / both equal / two different grants in query and body), of the client credentials and of the grant parameters (body / query / both / secret differing) are drawn per case; when grant_type names two grants the grant obligations are judged by the grant actually served (storage journal); every 2xx device authorization is checked to be stored for the acting client; the presentations include credentials of BOTH kinds in one request (registered secret via Basic / form next to a worthless assertion, wrong or right secret next to a valid assertion) for clients whose record holds a secret and a key; every must-refuse request that a healthy storage saw properly refused is sent again once per (storage call j of that request, fault kind) with exactly that call failing (fault sweep: plain error, wrapped context.DeadlineExceeded, oidc server_error) and must be refused each time; one request in six additionally meets a fault at a random call; each case runs on both routers after minting valid grant material through the real flows; one introspection / revocation / device-authorization request in four carries a stray grant_type parameter (a grant of the registration or any grant); identity clause on every request that names and authenticates exactly one client: every storage call made on behalf of a client (RevokeToken, StoreDeviceAuthorization, GetDeviceAuthorizatonState, GetRefreshTokenInfo, SetIntrospectionFromToken, ClientCredentialsTokenRequest, CreateTokenExchangeRequest, Create*Token*, id-token claim look-ups) names that client; OVERLAP PART: overlap case j enumerates endpoint/grant of the parked request(%d) x stray grant_type on non-token endpoints(2) x its registered auth method(%d) x shape(%d: conforming|conforming, must-refuse|conforming, conforming|must-refuse) = %d cells cyclically, the in-between request (another client, same route; on the token endpoint any grant) and the must-refuse flavour (wrong secret, unknown client, no credential, bad assertion, credential of the wrong kind, grant not registered, no client) are drawn; on both routers the parked request is served alone (sched.Trace: every span of the library, storage call and op.Client getter it passes), then for EVERY such point k it is parked at k on its own goroutine, the in-between request is served completely, the parked one released (sched.Preempt; fresh grant material per k); both answers are judged as sequential ones (refusal obligations, identity clause, panics), keys carry :overlapping-requests; pairs of which a request already fails alone are not overlapped; distinct = distinct vectors (router, cell, presentation, auth method, target grant registered/disabled, app type, dual, post/pkjwt flags, id flavour, secret flavour) whose request was answered and judged",
+		numOps, numPres, numAuth, numGrantKinds, coreCells, len(ovOps), numAuth, len(ovShapes), ovProduct))
 	run.Assume(
 		"vstore policy: AuthorizeClientIDSecret / ClientCredentials compare the stored secret only (an empty stored secret never matches); GetKeyByIDAndClientID returns keys registered under exactly that client id",
 		"grant material is minted under a conforming registration (Basic, all grants) of the same client id; the registration under test is installed before the judged request (the statement speaks about the registration at the time of the request)",
@@ -466,6 +469,8 @@ func main() {
 		"client_credentials and introspection authenticate an opaque caller id purely through storage (no op.Client registration is resolved; an introspection caller may be a service account without registration), so a credential of the other kind that the storage accepts there is grey",
 		"fault sweep: the repeated request is literally the healthy run's request against the same registration and grant material; a refusal consumes nothing the refusal obligation depends on, so the obligation is the same for every repetition; fault positions the repeated request does not reach are counted (fault-position-not-reached), not judged",
 		"credentials of both kinds: a valid credential of the registered kind next to a wrong / superfluous credential of the other kind is grey; a credential of the other kind next to a worthless credential of the registered kind is must-refuse (wrong-kind-secret / wrong-kind-assertion) wherever the wrong kind alone is",
+		"overlap part: while a request is parked at a yield point it makes no storage call, so the storage journal splits by sequence number into the calls of the parked and of the in-between request; an in-between request that cannot finish while the other is parked (patience 30 s) is inconclusive for that point, never a violation; the worlds of this part sign with ES256 and have every optional grant / auth method enabled in three passes of four",
+		"a stray grant_type=client_credentials on revocation / device authorization makes the Server router authenticate through ClientCredentialsStorage.ClientCredentials(id, secret): like on the client_credentials grant itself, a stored secret of a private_key_jwt client that this storage-side authenticator accepts is storage policy (grey, counted), not judged",
 		"a right secret in a non-canonical encoding, right+wrong secrets together, a valid assertion while private_key_jwt is disabled are grey (HEAD is not uniform there); a registered secret that travels only in the form / query while the provider has client_secret_post disabled is NOT an authentication (must-refuse: post-disabled)",
 	)
 	var mand []string
@@ -517,12 +522,6 @@ func main() {
 	run.Mandatory(mand...)
 	pools := make([]pool, 64)
 	t0, c0 := time.Now(), cpuSeconds()
-	if os.Getenv("C05_DEV_OVERLAP_ONLY") != "" {
-		n = 0
-		f, _ := os.Create("/tmp/c05dev/cpu.prof")
-		pprof.StartCPUProfile(f)
-		defer pprof.StopCPUProfile()
-	}
 	ev.Parallel(n, 0, func(worker int, i int) {
 		if pools[worker] == nil {
 			pools[worker] = pool{}
@@ -534,7 +533,6 @@ func main() {
 	ovPools := make([]pool, 64)
 	t1, c1 := time.Now(), cpuSeconds()
 	overlapPart(run, 0, nOv, ovPools)
-	pprof.StopCPUProfile()
 	run.Extra("yield_points_passed", sched.Points())
 	// (evidence only: nothing is decided by a clock)
 	run.Extra("wall_s_by_part", map[string]float64{"sequential+fault-sweep": t1.Sub(t0).Seconds(), "overlap": time.Since(t1).Seconds()})
